@@ -377,10 +377,21 @@ def ob_algo_simplify(tier="quick", shape="add"):
 
 # ---- operations.op._op: rewriting + annotation handling + node creation ---------------------------------------
 
-def ob_op_wrapper(tier="quick"):
-    """the closure built by operations.op for a binary BV operator, with simplifications.simplify by contract"""
+def ob_op_wrapper(tier="quick", arity=2):
+    """the closure built by operations.op for a BV operator declared with one, two or three operands or as variadic (`arity` 1 / 2 / 3 / 0:
+    op() computes the expected number of operands from the declaration and the closure may branch on it), with simplifications.simplify by
+    contract.  The operator's meaning is the sum of its operands (the complement for the unary one)."""
     import claripy.fp
     proxies.set_iw(24)
+    nargs = arity or 2      # variadic: two operands (the closure branches on the DECLARATION being variadic, not on the count)
+
+    def mean(ds):
+        if len(ds) == 1:
+            return ~ds[0]
+        t = ds[0]
+        for d in ds[1:]:
+            t = t + d
+        return t
 
     def body(c):
         def simplify_contract(name, args):
@@ -389,7 +400,7 @@ def ob_op_wrapper(tier="quick"):
                 return None, False
             kids = [a for a in args if isinstance(a, SN.SymNode)]
             r = SN.new_node(("bv", 8), label="simp")
-            c.assume(r.den == kids[0].den + kids[1].den)
+            c.assume(r.den == mean([k.den for k in kids]))
             pick_annotations(r, "simp-result", below=True)
             annotated = c.choose([True, True], "annotated-flag") == 1
             if annotated:
@@ -402,11 +413,12 @@ def ob_op_wrapper(tier="quick"):
         ns = load_ops()
         ns["claripy"] = type("NS", (), {"ast": type("A", (), {"Base": SN.SymNode}), "fp": claripy.fp,
                                           "simplifications": type("S", (), {"simplify": staticmethod(simplify_contract)})})
-        opf = ns["op"]("__add__", (SN.SymBV, SN.SymBV), SN.SymBV, extra_check=ns["length_same_check"], calc_length=ns["basic_length_calc"])
-        a = pick_annotations(SN.new_node(("bv", 8), "root_a"), "a", below=True)
-        b = pick_annotations(SN.new_node(("bv", 8), "root_b"), "b", below=True)
+        opf = ns["op"]("__invert__" if nargs == 1 else "__add__", (SN.SymBV,) * nargs if arity else SN.SymBV, SN.SymBV,
+                       extra_check=ns["length_same_check"] if nargs > 1 else None, calc_length=ns["basic_length_calc"])
+        operands = [pick_annotations(SN.new_node(("bv", 8), f"root_{nm}"), nm, below=True) for nm in "abd"[:nargs]]
+        a = operands[0]
         try:
-            r = opf(a, b)
+            r = opf(*operands)
         except (PathEnd, Undecided):
             raise
         except Exception as ex:  # noqa
@@ -416,12 +428,12 @@ def ob_op_wrapper(tier="quick"):
         if not isinstance(r, SN.SymNode):
             c.fail("op._op/type", f"returned {type(r).__name__}")
             return "type"
-        c.check("op._op/meaning", r.den == a.den + b.den, "constructor result does not mean a + b")
+        c.check("op._op/meaning", r.den == mean([x.den for x in operands]), "constructor result does not mean the operation on its operands")
         c.n_vcs += 1
         have_u = set(r._uneliminatable_annotations) | getattr(r.root(), "child_unelim", set())
         have_r = set(r._relocatable_annotations)
-        need_u = set(a._uneliminatable_annotations) | set(b._uneliminatable_annotations)
-        need_r = set(a._relocatable_annotations) | set(b._relocatable_annotations)
+        need_u = set().union(*[set(x._uneliminatable_annotations) for x in operands])
+        need_r = set().union(*[set(x._relocatable_annotations) for x in operands])
         if not need_u <= have_u:
             c.fail("op._op/uneliminatable-kept", f"a rewrite removed a sub-expression carrying {sorted(map(repr, need_u - have_u))}", kind="C07")
         if not need_r <= have_r:
